@@ -88,6 +88,16 @@ theorem ps_step (n : Nat) (hS : PS S n) (hV : PVars S n) (hL : PList S n) (hW : 
         exact simN_weaken_nil (block_simN (L := []) (hL m c iter σ1 (.val .undef) rfl hwl.1.2))
       · intro σ2
         exact block_simN (L := []) (hL m f iter σ2 (.val .undef) rfl hwl.2)
+    | withS e b =>
+      simp only [wlS] at hwl
+      simp only [ottoS, specS]
+      cases S.evalE e σ with
+      | throw v σ' => exact sim_throw _ _ (labok_refl _)
+      | ok v σ' =>
+        simp only
+        cases S.withEnter v σ' with
+        | throw t σ2 => exact sim_throw _ _ (labok_refl _)
+        | ok w σ2 => exact withExit_sim S (hS m b L [] iter σ2 (by simp) H2 hwl)
     | switchS d cs =>
       simp only [ottoS, specS]
       cases S.evalE d σ with
